@@ -31,18 +31,29 @@ func ruleC03Thresh(c *Ctx) {
 		return
 	}
 	R := NewRenderer(fn)
-	thr := "+" + rwCnt + " -div(+$0.ReplicationFactor +$0.quorumReplicaCount,+2) -1 >=0"
-	nthr := "-" + rwCnt + " +div(+$0.ReplicationFactor +$0.quorumReplicaCount,+2) >=0"
+	thr := "+" + rwCntQ + " +" + rwCntR + " -div(+$0.ReplicationFactor +$0.quorumReplicaCount,+2) -1 >=0"
+	nthr := "-" + rwCntQ + " -" + rwCntR + " +div(+$0.ReplicationFactor +$0.quorumReplicaCount,+2) >=0"
 	f, t := storesOfConst(fn, "Controller", "ReadOnly", "false"), storesOfConst(fn, "Controller", "ReadOnly", "true")
-	if len(f) == 0 || len(t) == 0 {
+	all := StoresTo(fn, "Controller", "ReadOnly")
+	// ReadOnly = <boolean expression>: the expression must be the below-threshold comparison itself
+	direct := 0
+	for _, s := range all {
+		v := strip(s.(*ssa.Store).Val)
+		if _, isConst := v.(*ssa.Const); isConst {
+			continue
+		}
+		direct++
+		if a := R.CondAtom(v).String(); a == nthr {
+			c.OK(rule, FnName(fn)+" | ReadOnly = (rw < (RF+q)/2+1)", c.P.InstrPos(s), "ReadOnly is assigned the comparison "+nthr, true)
+		} else {
+			c.Bad(rule, FnName(fn)+" | ReadOnly = (rw < (RF+q)/2+1)", c.P.InstrPos(s), "c.ReadOnly is assigned the truth value of ["+a+"], expected ["+nthr+"]", nil)
+		}
+	}
+	if direct == 0 && (len(f) == 0 || len(t) == 0) {
 		c.Undecided(rule, FnName(fn)+" | stores to ReadOnly", "", "expected stores of both true and false to c.ReadOnly")
 	}
 	c.Guard(rule, fn, f, "ReadOnly=false", nil, atom("rw >= (RF+q)/2+1", thr))
 	c.Guard(rule, fn, t, "ReadOnly=true", nil, atom("rw < (RF+q)/2+1", nthr))
-	all := StoresTo(fn, "Controller", "ReadOnly")
-	if len(all) != len(f)+len(t) {
-		c.Bad(rule, FnName(fn)+" | non-constant store to ReadOnly", "", "c.ReadOnly is assigned a non-constant value: threshold cannot be read off", nil)
-	}
 	// every return passes a store to ReadOnly (status always re-evaluated)
 	var rets []ssa.Instruction
 	for _, r := range Returns(fn) {
@@ -64,7 +75,7 @@ func ruleC03Thresh(c *Ctx) {
 			c.Bad(rule, FnName(fn)+" | RWReplicaCount = rw", c.P.InstrPos(s), "RWReplicaCount receives "+v+", expected "+rwCnt, nil)
 		}
 	}
-	c.Floor(rule, 4)
+	c.Floor(rule, 3)
 }
 
 func ruleC03Gate(c *Ctx) {
@@ -563,6 +574,7 @@ func ruleC05Monitor(rule string) ruleFn {
 type phiEdge struct {
 	val  ssa.Value
 	from *ssa.BasicBlock
+	to   *ssa.BasicBlock
 }
 
 // allPhiEdges flattens nested phis into (value, predecessor block of the innermost phi).
@@ -580,7 +592,7 @@ func allPhiEdges(p *ssa.Phi) []phiEdge {
 				walk(in)
 				continue
 			}
-			out = append(out, phiEdge{e, q.Block().Preds[i]})
+			out = append(out, phiEdge{e, q.Block().Preds[i], q.Block()})
 		}
 	}
 	walk(p)
